@@ -264,6 +264,8 @@ def _gen_pure_case(rng, n):
     for _ in range(n):
         r = rng.random()
         ops.append(_gen_check(rng) if r < 0.6 else _gen_creator(rng) if r < 0.85 else _gen_split(rng))
+        if ops[-1][0] == "check" and rng.random() < 0.7:
+            ops.append(["bind", ops[-1][1], ops[-1][2]])    # the same call made for real
     return {"space": {"cls": "SingleGrid", "w": 1, "h": 1, "draw_grid": False}, "portrayal": [[None] * 4], "layer": None, "ops": ops}
 
 
@@ -289,6 +291,14 @@ def gen_cases(rng, tier):
         cases.append(_gen_case(rng, classes[i % len(classes)] if i < 4 * len(classes) else None))
     for _ in range(200 if tier == "quick" else 2500):
         cases.append(_gen_pure_case(rng, 12))
+    # exhaustive small signatures x parameter subsets, checked AND really called (model-evaluated)
+    keys = ["a", "kwargs", "options", "b"]
+    subsets = [list(x) for r in range(len(keys) + 1) for x in itertools.combinations(keys, r)]
+    uni = [[k, sg, ps] for sg in _sig_universe(1 if tier == "quick" else 2) for ps in subsets for k in ("check", "bind")]
+    for i in range(0, len(uni), 40):
+        c = _gen_pure_case(rng, 0)
+        c["ops"] = uni[i:i + 40]
+        cases.append(c)
     # default spring layout: oracle only
     for _ in range(12 if tier == "quick" else 150):
         c = _gen_case(rng, rng.choice(["NetworkGrid", "Network"]), 8)
@@ -334,7 +344,7 @@ def enumerate_cases(tier, broken=False):
     sigs = _sig_universe(3 if tier == "thorough" else 2)
     keys = ["a", "kwargs", "options", "b"]
     subsets = [list(s) for r in range(len(keys) + 1) for s in itertools.combinations(keys, r)]
-    ops = [["check", s, ps] for s in sigs for ps in subsets]
+    ops = [[k, s, ps] for s in sigs for ps in subsets for k in ("check", "bind")]
     for s in _sig_universe(1):
         for ps in subsets[:8]:
             for tag in (0, 1, 2):
@@ -980,6 +990,15 @@ def run_impl(case):
                 if not accepted and must_accept:
                     fail("C20/check_model_params/callable-refused", i,
                          f"_check_model_params refuses {sorted(params)} for `{sigtxt}` (error kind {obs[-1][1]}) although M(**params) is a valid keyword call")
+            elif kind == "bind":
+                # Python's own verdict on the keyword call: ties Viz.bindable to CPython directly
+                _, sig, ps = op
+                M, src = _make_sig_class(sig)
+                try:
+                    M(**{n: 1 for n in ps})
+                    obs.append([1])
+                except TypeError:
+                    obs.append([0])
             elif kind == "creator":
                 import solara
 
@@ -1061,7 +1080,7 @@ def run_impl(case):
             import traceback
 
             obs.append([-1, 99])
-            fail(f"C20/{kind}/unexpected-exception" if kind in ("check", "split", "creator") else f"C20/{kind}/{fam}/unexpected-exception", i,
+            fail(f"C20/{kind}/unexpected-exception" if kind in ("check", "split", "creator", "bind") else f"C20/{kind}/{fam}/unexpected-exception", i,
                  f"{op} on {cls} {_dims(sp)} with agents {shadow} raised {type(e).__name__}: {e} :: {traceback.format_exc()[-600:]}")
     return {"obs": obs, "failures": failures, "model": not spring}
 
@@ -1240,6 +1259,9 @@ def _coq_op(op):
     tags = ["VFixed", "VSlider", "VDictType", "VDictNoType"]
     if k == "split":
         return "Split " + L.lst([f"({NAMES.index(n)}, {tags[t]} {L.z(v)})" for n, t, v in op[1]])
+    if k == "bind":
+        sig = [_coq_param("self", "PosOrKw", False)] + [_coq_param(*p) for p in op[1]]
+        return f"Bind {L.lst(sig)} {L.zlist([NAMES.index(n) for n in op[2]])}"
     if k == "creator":
         sig = [_coq_param("self", "PosOrKw", False)] + [_coq_param(*p) for p in op[1]]
         return f"Creator {L.lst(sig)} " + L.lst([f"({NAMES.index(n)}, {tags[t]} {L.z(v)})" for n, t, v in op[2]])
@@ -1269,7 +1291,7 @@ def op_kinds(case):
 
 def nontrivial(case):
     obs = case.get("_obs", [])
-    draws = [o for op, o in zip(case["ops"], obs) if op[0] in ("mpl", "altair", "collect", "layer", "check", "split", "creator") and o and o[0] not in (-2,)]
+    draws = [o for op, o in zip(case["ops"], obs) if op[0] in ("mpl", "altair", "collect", "layer", "check", "split", "creator", "bind") and o and o[0] not in (-2,)]
     return len(case["ops"]) >= 3 and len(draws) >= 1
 
 
@@ -1286,6 +1308,6 @@ LEVEL_TEXT = ("Machine-checked Coq theorems over a Gallina transcription of coll
               "independent oracle states the property on the implementation and supplies the failing input.")
 LEVEL_NOTE = ("Theorems are about the model; Matplotlib/Altair rendering, the spring layout, alpha/edgecolors/linewidths, "
               "colour-bar drawing and the Solara components are not modelled. Trusted: Coq kernel, the driver/observer, "
-              "CPython call semantics as modelled by Viz.bindable (cross-checked against inspect.Signature.bind and a real call on every case). No axioms.")
+              "CPython call semantics as modelled by Viz.bindable (compared with the real keyword call by the Bind operations of the correspondence). No axioms.")
 TECHNIQUE = "Coq proof (induction over histories, permutation/partition lemmas, closed under global context) + vm_compute correspondence"
 DESIGN_REF = "DESIGN.md section 4, C20"
